@@ -254,7 +254,7 @@ def correspond(ctx):
       samples=[sample], disagreements=dis, spec_failures=fails,
       trusted_base=['correspondence harness corr_C01.py (sampled inputs, float64 1e-9)',
                     'MuJoCo 3.x mj_forward / mj_objectVelocity as the reference engine',
-                    'scan.tree / scan.link_types modelled as the recursion/slicing they implement (Layer B stage 1)'],
+                    'scan.tree / scan.link_types: the grouped code is transcribed faithfully and PROVED equal to the recursion/slicing (Layer B stage 2, Props/C01, Props/C02); the transcriptions are tied to the real functions by an exhaustive exact-integer correspondence in the C01 check'],
       assumptions=['IEEE round-off not modelled; theorems over the reals'],
       explanation='Model<->implementation and Spec<->MuJoCo legs of the triangle; theorem Model = Spec in Props/C01.lean',
       extra=dict(link_type_histogram=hist, layer_b_cases=n_b))
